@@ -626,12 +626,19 @@ got_kept = [int(r.name[1:]) for r in tot.rxns]; got_skipped = [int(r.name[1:]) f
 bad = []
 if got_kept != exp_kept or got_skipped != exp_skipped: bad.append("concatenate kept %%s skipped %%s, expected %%s / %%s" %% (got_kept, got_skipped, exp_kept, exp_skipped))
 rsys = ReactionSystem([Reaction({"A": 1}, {"B": 1}), Reaction({"B": 1}, {"C": 1})], "A B C")
-arr, keys = rsys.per_substance_varied({"A": 1, "B": 2, "C": 3}, {"C": [30, 31, 32], "A": [10, 11]})
+try:
+    arr, keys = rsys.per_substance_varied({"A": 1, "B": 2, "C": 3}, {"C": [30, 31, 32], "A": [10, 11]})
+except Exception as e:
+    print("per_substance_varied raised %%r" %% (e,)); sys.exit(1)
 if keys != ("A", "C") or arr.shape != (2, 3, 3): bad.append("per_substance_varied shape/keys %%s %%s" %% (arr.shape, keys))
 else:
     for i, a in enumerate([10, 11]):
         for j, c in enumerate([30, 31, 32]):
             if list(arr[i, j]) != [a, 2, c]: bad.append("per_substance_varied[%%d,%%d] = %%s" %% (i, j, list(arr[i, j])))
+arr2, keys2 = rsys.per_substance_varied({"A": 1, "B": 2, "C": 3}, {"C": [30, 31], "A": [10, 11]})
+for i, a in enumerate([10, 11]):
+    for j, c in enumerate([30, 31]):
+        if list(arr2[i, j]) != [a, 2, c]: bad.append("per_substance_varied (2x2) [%%d,%%d] = %%s" %% (i, j, list(arr2[i, j])))
 d = {"C": 3.0, "A": 1.0, "B": 2.0}
 if list(rsys.as_per_substance_array(d)) != [1.0, 2.0, 3.0] or rsys.as_per_substance_dict([1.0, 2.0, 3.0]) != {"A": 1.0, "B": 2.0, "C": 3.0}: bad.append("array/dict order")
 for b in bad: print("MISMATCH", b)
@@ -680,10 +687,15 @@ def task_concatenate():
     # ordering (float coercion inside: concrete structure only, values irrelevant)
     import subprocess
     import sys as _sys
-    rsys = ReactionSystem([Reaction({"A": 1}, {"B": 1}), Reaction({"B": 1}, {"C": 1})], "A B C")
-    arr, keys = rsys.per_substance_varied({"A": 1, "B": 2, "C": 3}, {"C": [30, 31, 32], "A": [10, 11]})
-    ok = keys == ("A", "C") and arr.shape == (2, 3, 3) and all(list(arr[i, j]) == [a, 2, c] for i, a in enumerate([10, 11]) for j, c in enumerate([30, 31, 32]))
-    ok = ok and list(rsys.as_per_substance_array({"C": 3.0, "A": 1.0, "B": 2.0})) == [1.0, 2.0, 3.0]
+    try:
+        rsys = ReactionSystem([Reaction({"A": 1}, {"B": 1}), Reaction({"B": 1}, {"C": 1})], "A B C")
+        arr, keys = rsys.per_substance_varied({"A": 1, "B": 2, "C": 3}, {"C": [30, 31, 32], "A": [10, 11]})
+        ok = keys == ("A", "C") and arr.shape == (2, 3, 3) and all(list(arr[i, j]) == [a, 2, c] for i, a in enumerate([10, 11]) for j, c in enumerate([30, 31, 32]))
+        arr2, keys2 = rsys.per_substance_varied({"A": 1, "B": 2, "C": 3}, {"C": [30, 31], "A": [10, 11]})
+        ok = ok and all(list(arr2[i, j]) == [a, 2, c] for i, a in enumerate([10, 11]) for j, c in enumerate([30, 31]))
+        ok = ok and list(rsys.as_per_substance_array({"C": 3.0, "A": 1.0, "B": 2.0})) == [1.0, 2.0, 3.0]
+    except Exception:
+        ok = False
     if ok:
         res["discharged"] += 1
     else:
